@@ -374,7 +374,7 @@ fn wrap_case_custom() -> BoxedStrategy<DecoWrapCase> {
             if let Wrap::H(_) = wrap {
                 items = vec![vec![Block::Inl(hinl)]];
             }
-            DecoWrapCase { inner: WrapCase { wrap, items, width, rich: false, decorate: false }, strings }
+            DecoWrapCase { inner: WrapCase { wrap, items, width, rich: false, decorate: false, lead: false }, strings }
         })
         .boxed()
 }
